@@ -20,7 +20,7 @@ From Coq Require Import String.
 From Sakura.Model Require Import Base Cursor Length Event Song Token LoopMachine LexCore RunCore Compile Script.
 From Sakura.Model Require Expr.
 From Sakura.Spec Require Import ScriptSem.
-From Sakura.Proofs Require Import ScriptP.
+From Sakura.Proofs Require Import ScriptP ScriptCorP.
 Open Scope Z_scope.
 Open Scope list_scope.
 
@@ -377,3 +377,1017 @@ Print Assumptions C11_statement_call_in_caller_scope.
 Print Assumptions C11_if_one_branch_tokens.
 Print Assumptions C11_call_named_tokens.
 Print Assumptions C11_statement_call_tokens.
+
+(* ================================================================================================ *)
+(* PART 2 - the corollaries at full strength (proofs/ScriptCorP.v): each one on the meaning (any language, any block        *)
+(* semantics `blk` one level down, or the semantics `sem` itself at any budget n) and, through C11_exec_vs_sem, on the      *)
+(* exec() machine of the model (ML / funs_of ft / emb: see the head of this file).  Abbreviations from ScriptCorP:          *)
+(*   mpasses ft n, mfpasses ft n, mstraight ft n, mfstraight ft n, mrets ft n = passes / fpasses / straight / fstraight /    *)
+(*   rets of the language ML with the functions funs_of ft and the blocks sem ML (funs_of ft) n;  mfill = fill for ML.       *)
+(* ================================================================================================ *)
+
+(* ------------------------------------------------------------------------------------------------ *)
+(* 2.1 loops are their unrolled text                                                                  *)
+Section Unroll2.
+  Variables Name Atom Op Val World Bnd FId Err : Type.
+  Variable L : lang Name Atom Op Val World Bnd FId Err.
+  Variable funs : FId -> option (fundef Name Atom Op Val FId).
+  Notation gcfg := (cfg Name World Bnd).
+
+  (* FOR(init; c; inc){body} whose test holds exactly k times - ANY k within the limit, test without effect, bodies and increments
+     running to their ends - means  init; body; inc; body; inc; ... (k times)  (WHILE: C11_loop_unroll_text) *)
+  Theorem C11_for_unroll_text : forall n init cnd inc body line k (c c0 ck : gcfg) v,
+    sem L funs n init c = Fin (Normal, c0) ->
+    fstraight Name Atom Op Val World Bnd FId Err L funs n cnd inc body k c0 ck -> (k <= l_limit L)%nat ->
+    eval_opt L funs (sem L funs n) (l_vzero L) cnd ck = Fin (v, ck) -> l_truth L v = false ->
+    exec_stmt L funs (sem L funs n) (For init cnd inc body line) c
+    = sem L funs (S n) (init ++ reps Name Atom Op FId k (body ++ inc)) c.
+  Proof. exact (for_unroll_text Name Atom Op Val World Bnd FId Err L funs). Qed.
+End Unroll2.
+
+(* the machine: exec() on the WHILE token = exec() on the body, k times in sequence - every k <= 10000 *)
+Theorem C11_loop_unroll_exec : forall ft, ft_ok ft = true -> forall n cnd body line k m (c ck : cfg (list ch) song vv) v,
+  wf c -> toks_ok body = true ->
+  mstraight ft n (oexpr_of cnd) (prog_of body) k c ck -> (k <= m_N)%nat ->
+  eval_opt ML (funs_of ft) (sem ML (funs_of ft) n) (Expr.SInt 0) (oexpr_of cnd) ck = Fin (v, ck) -> Expr.to_b v = false ->
+  exec_s (S n) [SWhile cnd body line] (Ok (emb ft m c)) = Nat.iter k (exec_s n body) (Ok (emb ft m c)).
+Proof. exact while_unroll_exec. Qed.
+(* ... = exec() on the body WRITTEN k times, when that text still is a block (length below the fuel of one exec() loop) *)
+Theorem C11_loop_unroll_exec_text : forall ft, ft_ok ft = true -> forall n cnd body line k m (c ck : cfg (list ch) song vv) v,
+  wf c -> toks_ok body = true -> toks_ok (reps_t k body) = true ->
+  mstraight ft n (oexpr_of cnd) (prog_of body) k c ck -> (k <= m_N)%nat ->
+  eval_opt ML (funs_of ft) (sem ML (funs_of ft) n) (Expr.SInt 0) (oexpr_of cnd) ck = Fin (v, ck) -> Expr.to_b v = false ->
+  exec_s (S n) [SWhile cnd body line] (Ok (emb ft m c)) = exec_s (S n) (reps_t k body) (Ok (emb ft m c)).
+Proof. exact while_unroll_exec_text. Qed.
+(* FOR on the machine: init, then k x (body, increment) *)
+Theorem C11_for_unroll_exec : forall ft, ft_ok ft = true -> forall n init cnd inc body line k m (c c0 ck : cfg (list ch) song vv) v,
+  wf c -> toks_ok init = true -> toks_ok inc = true -> toks_ok body = true ->
+  sem ML (funs_of ft) n (prog_of init) c = Fin (Normal, c0) ->
+  mfstraight ft n (oexpr_of cnd) (prog_of inc) (prog_of body) k c0 ck -> (k <= m_N)%nat ->
+  eval_opt ML (funs_of ft) (sem ML (funs_of ft) n) (Expr.SInt 0) (oexpr_of cnd) ck = Fin (v, ck) -> Expr.to_b v = false ->
+  exec_s (S n) [SFor init cnd inc body line] (Ok (emb ft m c))
+  = Nat.iter k (fun s => exec_s n inc (exec_s n body s)) (exec_s n init (Ok (emb ft m c))).
+Proof. exact for_unroll_exec. Qed.
+Theorem C11_for_unroll_exec_text : forall ft, ft_ok ft = true -> forall n init cnd inc body line k m (c c0 ck : cfg (list ch) song vv) v,
+  wf c -> toks_ok init = true -> toks_ok inc = true -> toks_ok body = true -> toks_ok (init ++ reps_t k (body ++ inc)) = true ->
+  sem ML (funs_of ft) n (prog_of init) c = Fin (Normal, c0) ->
+  mfstraight ft n (oexpr_of cnd) (prog_of inc) (prog_of body) k c0 ck -> (k <= m_N)%nat ->
+  eval_opt ML (funs_of ft) (sem ML (funs_of ft) n) (Expr.SInt 0) (oexpr_of cnd) ck = Fin (v, ck) -> Expr.to_b v = false ->
+  exec_s (S n) [SFor init cnd inc body line] (Ok (emb ft m c)) = exec_s (S n) (init ++ reps_t k (body ++ inc)) (Ok (emb ft m c)).
+Proof. exact for_unroll_exec_text. Qed.
+
+(* ------------------------------------------------------------------------------------------------ *)
+(* 2.2 BREAK / CONTINUE and the innermost loop                                                        *)
+Section Innermost2.
+  Variables Name Atom Op Val World Bnd FId Err : Type.
+  Variable L : lang Name Atom Op Val World Bnd FId Err.
+  Variable funs : FId -> option (fundef Name Atom Op Val FId).
+  Variable blk : list (stmt Name Atom Op FId) -> cfg Name World Bnd -> result Err (signal * cfg Name World Bnd).
+  Notation gcfg := (cfg Name World Bnd).
+
+  (* BREAK ends the innermost loop ONLY: a WHILE standing between `pre` and `post` in a block (the body of an enclosing loop, a
+     branch, a function body) whose pass j+1 raises BREAK - from any depth of IFs inside its body - ends there and the block goes
+     on with `post` in the configuration the BREAK was raised in *)
+  Theorem C11_break_innermost_block : forall pre cnd body line post j (c c1 cj : gcfg) v c2 c3,
+    exec_seq L funs blk pre c = Fin (Normal, c1) ->
+    passes Name Atom Op Val World Bnd FId Err L funs blk cnd body j c1 cj -> (j < l_limit L)%nat ->
+    eval_opt L funs blk (l_vzero L) cnd cj = Fin (v, c2) -> l_truth L v = true -> blk body c2 = Fin (Brk, c3) ->
+    exec_seq L funs blk (pre ++ While cnd body line :: post) c = exec_seq L funs blk post c3.
+  Proof. exact (break_innermost_while Name Atom Op Val World Bnd FId Err L funs blk). Qed.
+  (* ... a FOR: the increment of the pass that raised BREAK is not run *)
+  Theorem C11_break_innermost_for_block : forall pre init cnd inc body line post j (c c1 c1' cj : gcfg) v c2 c3,
+    exec_seq L funs blk pre c = Fin (Normal, c1) -> blk init c1 = Fin (Normal, c1') ->
+    fpasses Name Atom Op Val World Bnd FId Err L funs blk cnd inc body j c1' cj -> (j < l_limit L)%nat ->
+    eval_opt L funs blk (l_vzero L) cnd cj = Fin (v, c2) -> l_truth L v = true -> blk body c2 = Fin (Brk, c3) ->
+    exec_seq L funs blk (pre ++ For init cnd inc body line :: post) c = exec_seq L funs blk post c3.
+  Proof. exact (break_innermost_for Name Atom Op Val World Bnd FId Err L funs blk). Qed.
+
+  (* CONTINUE - raised at any depth of IFs in the body - ends the PASS of the innermost loop: the loop goes on with its next test;
+     in a FOR the increment runs first *)
+  Theorem C11_continue_innermost : forall cnd body line left (c : gcfg) v c1 c2,
+    eval_opt L funs blk (l_vzero L) cnd c = Fin (v, c1) -> l_truth L v = true -> blk body c1 = Fin (Cont, c2) ->
+    while_sem L funs blk (S left) cnd body line c = while_sem L funs blk left cnd body line c2.
+  Proof. exact (continue_innermost_while Name Atom Op Val World Bnd FId Err L funs blk). Qed.
+  Theorem C11_continue_innermost_for : forall cnd inc body line left (c : gcfg) v c1 c2 c3,
+    eval_opt L funs blk (l_vzero L) cnd c = Fin (v, c1) -> l_truth L v = true -> blk body c1 = Fin (Cont, c2) ->
+    blk inc c2 = Fin (Normal, c3) ->
+    for_sem L funs blk (S left) cnd inc body line c = for_sem L funs blk left cnd inc body line c3.
+  Proof. exact (continue_innermost_for Name Atom Op Val World Bnd FId Err L funs blk). Qed.
+
+  (* whatever its passes raise, the block around a WHILE sees it end normally and goes on behind it - or sees a RETURN *)
+  Theorem C11_loop_signals_stay_inside : forall pre cnd body line post (c c1 : gcfg) sg c2,
+    exec_seq L funs blk pre c = Fin (Normal, c1) -> exec_stmt L funs blk (While cnd body line) c1 = Fin (sg, c2) ->
+    (sg = Normal /\ exec_seq L funs blk (pre ++ While cnd body line :: post) c = exec_seq L funs blk post c2)
+    \/ (sg = Ret /\ exec_seq L funs blk (pre ++ While cnd body line :: post) c = Fin (Ret, c2)).
+  Proof. exact (loop_signals_stay_inside Name Atom Op Val World Bnd FId Err L funs blk). Qed.
+  (* a FOR lets neither out provided its initialiser and increment parts raise nothing ... *)
+  Theorem C11_for_signals : forall init cnd inc body line,
+    (forall c sg c', blk init c = Fin (sg, c') -> sg = Normal) -> (forall c sg c', blk inc c = Fin (sg, c') -> sg = Normal) ->
+    forall (c : gcfg) sg c', exec_stmt L funs blk (For init cnd inc body line) c = Fin (sg, c') -> sg = Normal \/ sg = Ret.
+  Proof. exact (for_stmt_signals Name Atom Op Val World Bnd FId Err L funs blk). Qed.
+End Innermost2.
+
+Section Innermost3.
+  Variables Name Atom Op Val World Bnd FId Err : Type.
+  Variable L : lang Name Atom Op Val World Bnd FId Err.
+  Variable funs : FId -> option (fundef Name Atom Op Val FId).
+  Notation gcfg := (cfg Name World Bnd).
+
+  (* ... which is the case when they consist of leaves, PRINTs, declarations, assignments, X++ and call statements *)
+  Theorem C11_for_plain_signals : forall n init cnd inc body line (c : gcfg) sg c',
+    forallb (plain_stmt Name Atom Op FId) init = true -> forallb (plain_stmt Name Atom Op FId) inc = true ->
+    exec_stmt L funs (sem L funs n) (For init cnd inc body line) c = Fin (sg, c') -> sg = Normal \/ sg = Ret.
+  Proof. exact (for_plain_signals Name Atom Op Val World Bnd FId Err L funs). Qed.
+
+  (* both levels: the inner WHILE is left by its BREAK, the body of the OUTER WHILE goes on with `post`, and when that ends normally
+     (or with the outer loop's own CONTINUE) the outer loop goes on with its next test *)
+  Theorem C11_break_innermost_nested : forall n cndO pre cndI bodyI lineI post lineO left j (c : gcfg) vO c0 c1 cj v c2 c3 sg c4,
+    eval_opt L funs (sem L funs (S n)) (l_vzero L) cndO c = Fin (vO, c0) -> l_truth L vO = true ->
+    exec_seq L funs (sem L funs n) pre c0 = Fin (Normal, c1) ->
+    passes Name Atom Op Val World Bnd FId Err L funs (sem L funs n) cndI bodyI j c1 cj -> (j < l_limit L)%nat ->
+    eval_opt L funs (sem L funs n) (l_vzero L) cndI cj = Fin (v, c2) -> l_truth L v = true -> sem L funs n bodyI c2 = Fin (Brk, c3) ->
+    exec_seq L funs (sem L funs n) post c3 = Fin (sg, c4) -> (sg = Normal \/ sg = Cont) ->
+    while_sem L funs (sem L funs (S n)) (S left) cndO (pre ++ While cndI bodyI lineI :: post) lineO c
+    = while_sem L funs (sem L funs (S n)) left cndO (pre ++ While cndI bodyI lineI :: post) lineO c4.
+  Proof. exact (break_innermost_nested Name Atom Op Val World Bnd FId Err L funs). Qed.
+
+  (* CONTINUE skips the rest of the body WHATEVER it is: the loop with body `pre; CONTINUE; post` means the loop with body `pre`
+     (for every allowance, every configuration; FOR: same increment, which still runs) *)
+  Theorem C11_continue_skips_text : forall n cnd pre post line (c : gcfg),
+    exec_stmt L funs (sem L funs n) (While cnd (pre ++ Continue :: post) line) c = exec_stmt L funs (sem L funs n) (While cnd pre line) c.
+  Proof. exact (continue_text_stmt Name Atom Op Val World Bnd FId Err L funs). Qed.
+  Theorem C11_continue_skips_text_for : forall n init cnd inc pre post line (c : gcfg),
+    exec_stmt L funs (sem L funs n) (For init cnd inc (pre ++ Continue :: post) line) c
+    = exec_stmt L funs (sem L funs n) (For init cnd inc pre line) c.
+  Proof. exact (continue_text_for_stmt Name Atom Op Val World Bnd FId Err L funs). Qed.
+End Innermost3.
+
+(* the machine: after the BREAK exec() is at the token behind the inner loop with break_flag = 0 *)
+Theorem C11_break_innermost_exec : forall ft, ft_ok ft = true ->
+  forall n pre cnd body line post j m (c c1 cj : cfg (list ch) song vv) v c2 c3,
+  wf c -> toks_ok (pre ++ SWhile cnd body line :: post) = true ->
+  exec_seq ML (funs_of ft) (sem ML (funs_of ft) n) (prog_of pre) c = Fin (Normal, c1) ->
+  mpasses ft n (oexpr_of cnd) (prog_of body) j c1 cj -> (j < m_N)%nat ->
+  eval_opt ML (funs_of ft) (sem ML (funs_of ft) n) (Expr.SInt 0) (oexpr_of cnd) cj = Fin (v, c2) -> Expr.to_b v = true ->
+  sem ML (funs_of ft) n (prog_of body) c2 = Fin (Brk, c3) ->
+  exec_s (S n) (pre ++ SWhile cnd body line :: post) (Ok (emb ft m c)) = exec_s (S n) post (Ok (emb ft m c3)) /\ wf c3.
+Proof. exact break_innermost_exec. Qed.
+Theorem C11_break_innermost_for_exec : forall ft, ft_ok ft = true ->
+  forall n pre init cnd inc body line post j m (c c1 c1' cj : cfg (list ch) song vv) v c2 c3,
+  wf c -> toks_ok (pre ++ SFor init cnd inc body line :: post) = true ->
+  exec_seq ML (funs_of ft) (sem ML (funs_of ft) n) (prog_of pre) c = Fin (Normal, c1) ->
+  sem ML (funs_of ft) n (prog_of init) c1 = Fin (Normal, c1') ->
+  mfpasses ft n (oexpr_of cnd) (prog_of inc) (prog_of body) j c1' cj -> (j < m_N)%nat ->
+  eval_opt ML (funs_of ft) (sem ML (funs_of ft) n) (Expr.SInt 0) (oexpr_of cnd) cj = Fin (v, c2) -> Expr.to_b v = true ->
+  sem ML (funs_of ft) n (prog_of body) c2 = Fin (Brk, c3) ->
+  exec_s (S n) (pre ++ SFor init cnd inc body line :: post) (Ok (emb ft m c)) = exec_s (S n) post (Ok (emb ft m c3)) /\ wf c3.
+Proof. exact break_innermost_for_exec. Qed.
+(* the machine never executes the tokens behind a CONTINUE of a loop body: the loop with them is the loop without them *)
+Theorem C11_continue_skips_exec : forall ft, ft_ok ft = true -> forall n cnd pre post line m (c : cfg (list ch) song vv),
+  wf c -> toks_ok (pre ++ SContinue :: post) = true ->
+  sem ML (funs_of ft) (S n) (prog_of [SWhile cnd pre line]) c <> Stuck ->
+  exec_s (S n) [SWhile cnd (pre ++ SContinue :: post) line] (Ok (emb ft m c)) = exec_s (S n) [SWhile cnd pre line] (Ok (emb ft m c)).
+Proof. exact continue_skips_exec. Qed.
+Theorem C11_continue_skips_for_exec : forall ft, ft_ok ft = true -> forall n init cnd inc pre post line m (c : cfg (list ch) song vv),
+  wf c -> toks_ok init = true -> toks_ok inc = true -> toks_ok (pre ++ SContinue :: post) = true ->
+  sem ML (funs_of ft) (S n) (prog_of [SFor init cnd inc pre line]) c <> Stuck ->
+  exec_s (S n) [SFor init cnd inc (pre ++ SContinue :: post) line] (Ok (emb ft m c))
+  = exec_s (S n) [SFor init cnd inc pre line] (Ok (emb ft m c)).
+Proof. exact continue_skips_for_exec. Qed.
+
+(* REFUTED for one shape: BREAK / CONTINUE written in the INCREMENT slot of a FOR are not confined to that FOR.  The FOR statement
+   ends with the flag still raised (first theorem: the model on `FOR(INT I=0;I<5;BREAK){ PRINT(I) }`), so the enclosing WHILE is
+   ended too (second: `X++ PRINT(X)` never run, the log is `0`, `99`).  /repo does the same on both sources. *)
+Theorem C11_for_increment_break_refuted :
+  match lex_script src_for_inc_break with
+  | Ok ([_; SFor init cnd inc body line], ls) =>
+      inc = [SCore (TLineNo 0); SBreak] /\
+      exists c', exec_stmt ML (funs_of (sl_funcs ls)) (sem ML (funs_of (sl_funcs ls)) 2)
+                   (For (prog_of init) (oexpr_of cnd) (prog_of inc) (prog_of body) line) (cfg_after_lex ls) = Fin (Brk, c')
+                 /\ logs_str (s_logs (world c')) = zs "[PRINT](0) 0"
+  | _ => False
+  end.
+Proof. exact for_increment_break_refuted. Qed.
+Theorem C11_for_increment_break_escapes :
+  match compile_script src_for_inc_break_nested with
+  | Ok (_, log) => log = zs "[PRINT](0) 0" ++ [10] ++ zs "[PRINT](0) 99"
+  | _ => False
+  end.
+Proof. exact for_increment_break_escapes. Qed.
+
+(* ------------------------------------------------------------------------------------------------ *)
+(* 2.3 the iteration limit                                                                            *)
+Section Limit2.
+  Variables Name Atom Op Val World Bnd FId Err : Type.
+  Variable L : lang Name Atom Op Val World Bnd FId Err.
+  Variable funs : FId -> option (fundef Name Atom Op Val FId).
+  Variable blk : list (stmt Name Atom Op FId) -> cfg Name World Bnd -> result Err (signal * cfg Name World Bnd).
+  Notation gcfg := (cfg Name World Bnd).
+
+  (* a WHILE whose test NEVER fails (Inv: any property of the configurations at the test that every pass re-establishes; passes end
+     normally or with CONTINUE): for every allowance `left` it runs exactly left + 1 passes and is then cut off - ONE note (the logged
+     error) is added to the world left by the last pass, and the loop statement ends Normal: nothing stays raised, the block goes on *)
+  Theorem C11_limit_never_ends : forall (Inv : gcfg -> Prop) cnd body line,
+    (forall c, Inv c -> exists v c1 sg c2,
+        eval_opt L funs blk (l_vzero L) cnd c = Fin (v, c1) /\ l_truth L v = true /\ blk body c1 = Fin (sg, c2) /\
+        (sg = Normal \/ sg = Cont) /\ Inv c2) ->
+    forall left c, Inv c ->
+    exists c', passes Name Atom Op Val World Bnd FId Err L funs blk cnd body (S left) c c' /\ Inv c' /\
+               while_sem L funs blk left cnd body line c = Fin (Normal, set_world c' (l_limit_note L false line (world c'))).
+  Proof. exact (while_never_ends Name Atom Op Val World Bnd FId Err L funs blk). Qed.
+  (* FOR: `left` full passes (test, body, increment), then the test and the body once more; the last increment is not run *)
+  Theorem C11_limit_never_ends_for : forall (Inv : gcfg -> Prop) cnd inc body line,
+    (forall c, Inv c -> exists v c1 sg c2 c3,
+        eval_opt L funs blk (l_vzero L) cnd c = Fin (v, c1) /\ l_truth L v = true /\ blk body c1 = Fin (sg, c2) /\
+        (sg = Normal \/ sg = Cont) /\ blk inc c2 = Fin (Normal, c3) /\ Inv c3) ->
+    forall left c, Inv c ->
+    exists cl v c1 sg c2, fpasses Name Atom Op Val World Bnd FId Err L funs blk cnd inc body left c cl /\ Inv cl /\
+               eval_opt L funs blk (l_vzero L) cnd cl = Fin (v, c1) /\ l_truth L v = true /\ blk body c1 = Fin (sg, c2) /\
+               (sg = Normal \/ sg = Cont) /\
+               for_sem L funs blk left cnd inc body line c = Fin (Normal, set_world c2 (l_limit_note L true line (world c2))).
+  Proof. exact (for_never_ends Name Atom Op Val World Bnd FId Err L funs blk). Qed.
+End Limit2.
+
+(* the machine, with the constant of the code (m_N = max_loop = 10000): the body runs S m_N = 10001 times, the message
+   `[ERROR](line) Loop too many times WHILE(>10000)` is logged once (add_log onto the song left by the last pass), break_flag is 0
+   and exec() goes on with the tokens behind the loop *)
+Theorem C11_limit_constant : Z.of_nat m_N = 10000 /\ MAX_LOOP = 10000.
+Proof. exact (conj m_N_value eq_refl). Qed.
+Theorem C11_limit_exec : forall ft, ft_ok ft = true ->
+  forall n (Inv : cfg (list ch) song vv -> Prop) cnd body line rest m (c : cfg (list ch) song vv),
+  wf c -> toks_ok (SWhile cnd body line :: rest) = true ->
+  (forall c0, Inv c0 -> exists v c1 sg c2,
+      eval_opt ML (funs_of ft) (sem ML (funs_of ft) n) (Expr.SInt 0) (oexpr_of cnd) c0 = Fin (v, c1) /\ Expr.to_b v = true /\
+      sem ML (funs_of ft) n (prog_of body) c1 = Fin (sg, c2) /\ (sg = Normal \/ sg = Cont) /\ Inv c2) ->
+  Inv c ->
+  exists c', mpasses ft n (oexpr_of cnd) (prog_of body) (S m_N) c c' /\ Inv c' /\
+    wf (set_world c' (add_log (world c') (limit_msg false line))) /\
+    exec_s (S n) (SWhile cnd body line :: rest) (Ok (emb ft m c))
+    = exec_s (S n) rest (Ok (emb ft m (set_world c' (add_log (world c') (limit_msg false line))))).
+Proof. exact while_limit_exec. Qed.
+Theorem C11_limit_for_exec : forall ft, ft_ok ft = true ->
+  forall n (Inv : cfg (list ch) song vv -> Prop) init cnd inc body line rest m (c c0 : cfg (list ch) song vv),
+  wf c -> toks_ok (SFor init cnd inc body line :: rest) = true ->
+  sem ML (funs_of ft) n (prog_of init) c = Fin (Normal, c0) ->
+  (forall c1, Inv c1 -> exists v c2 sg c3 c4,
+      eval_opt ML (funs_of ft) (sem ML (funs_of ft) n) (Expr.SInt 0) (oexpr_of cnd) c1 = Fin (v, c2) /\ Expr.to_b v = true /\
+      sem ML (funs_of ft) n (prog_of body) c2 = Fin (sg, c3) /\ (sg = Normal \/ sg = Cont) /\
+      sem ML (funs_of ft) n (prog_of inc) c3 = Fin (Normal, c4) /\ Inv c4) ->
+  Inv c0 ->
+  exists cl v c1 sg c2,
+    mfpasses ft n (oexpr_of cnd) (prog_of inc) (prog_of body) m_N c0 cl /\ Inv cl /\
+    eval_opt ML (funs_of ft) (sem ML (funs_of ft) n) (Expr.SInt 0) (oexpr_of cnd) cl = Fin (v, c1) /\ Expr.to_b v = true /\
+    sem ML (funs_of ft) n (prog_of body) c1 = Fin (sg, c2) /\ (sg = Normal \/ sg = Cont) /\
+    wf (set_world c2 (add_log (world c2) (limit_msg true line))) /\
+    exec_s (S n) (SFor init cnd inc body line :: rest) (Ok (emb ft m c))
+    = exec_s (S n) rest (Ok (emb ft m (set_world c2 (add_log (world c2) (limit_msg true line))))).
+Proof. exact for_limit_exec. Qed.
+
+(* ------------------------------------------------------------------------------------------------ *)
+(* 2.4 declared defaults                                                                              *)
+Section Defaults2.
+  Variables Name Atom Op Val World Bnd FId Err : Type.
+  Variable L : lang Name Atom Op Val World Bnd FId Err.
+  Variable blk : list (stmt Name Atom Op FId) -> cfg Name World Bnd -> result Err (signal * cfg Name World Bnd).
+  Notation gcfg := (cfg Name World Bnd).
+  Notation FILL := (fill Name Atom Op Val World Bnd FId Err L).
+
+  (* a call with the argument values vs - fewer than parameters, more, some without a value - IS the call with the completed list
+     `fill params vs`: one value per parameter; no NoDup or length hypothesis *)
+  Theorem C11_defaults_fill : forall fd vs (c : gcfg), call_body L blk fd (FILL (fd_params fd) vs) c = call_body L blk fd vs c.
+  Proof. exact (call_body_fill Name Atom Op Val World Bnd FId Err L blk). Qed.
+  (* the completed list: the argument where one with a value is given ... *)
+  Theorem C11_defaults_given : forall ps vs j x d, nth_error ps j = Some (x, d) -> l_is_none L (nth j vs (l_vnone L)) = false ->
+    nth j (FILL ps vs) (l_vnone L) = nth j vs (l_vnone L).
+  Proof. exact (fill_given Name Atom Op Val World Bnd FId Err L). Qed.
+  (* ... the declared default where the call has fewer arguments ... *)
+  Theorem C11_defaults_missing : forall ps vs j x d, l_is_none L (l_vnone L) = true ->
+    nth_error ps j = Some (x, d) -> (length vs <= j)%nat -> nth j (FILL ps vs) (l_vnone L) = d.
+  Proof. exact (fill_missing Name Atom Op Val World Bnd FId Err L). Qed.
+  (* ... or the argument has no value (`F(,2)`, `F(G())` with G yielding nothing) *)
+  Theorem C11_defaults_valueless : forall ps vs j x d, nth_error ps j = Some (x, d) -> l_is_none L (nth j vs (l_vnone L)) = true ->
+    nth j (FILL ps vs) (l_vnone L) = d.
+  Proof. exact (fill_valueless Name Atom Op Val World Bnd FId Err L). Qed.
+  (* arguments beyond the parameter list are ignored (they have been evaluated, their values are dropped) *)
+  Theorem C11_extra_args_ignored : forall fd vs extra (c : gcfg),
+    (length (fd_params fd) <= length vs)%nat -> call_body L blk fd (vs ++ extra) c = call_body L blk fd vs c.
+  Proof. exact (call_extra_args_ignored Name Atom Op Val World Bnd FId Err L blk). Qed.
+End Defaults2.
+
+(* the machine: exec_userfunc_or_array_or_macro after the arguments have been evaluated *)
+Theorem C11_defaults_exec : forall ec fd vs st, finish_call ec fd (mfill (f_params fd) vs) st = finish_call ec fd vs st.
+Proof. exact finish_call_fill. Qed.
+Theorem C11_defaults_entry_exec : forall ps vs j x d, nth_error ps j = Some (x, d) ->
+  nth j (mfill ps vs) Expr.SNone = (if Expr.is_none (nth j vs Expr.SNone) then d else nth j vs Expr.SNone)
+  /\ length (mfill ps vs) = length ps.
+Proof. exact (fun ps vs j x d H => conj (mfill_entry ps vs j x d H) (mfill_length ps vs)). Qed.
+Theorem C11_extra_args_exec : forall ec fd vs extra st,
+  (length (f_params fd) <= length vs)%nat -> finish_call ec fd (vs ++ extra) st = finish_call ec fd vs st.
+Proof. exact finish_call_extra_args. Qed.
+
+(* ------------------------------------------------------------------------------------------------ *)
+(* 2.5 RETURN leaves the function at once, from any depth                                             *)
+Section Return2.
+  Variables Name Atom Op Val World Bnd FId Err : Type.
+  Variable L : lang Name Atom Op Val World Bnd FId Err.
+  Variable funs : FId -> option (fundef Name Atom Op Val FId).
+  Notation gcfg := (cfg Name World Bnd).
+  Notation RETS := (rets Name Atom Op Val World Bnd FId Err L funs).
+
+  (* rets n b c v c' (ScriptCorP) : the run of block b from c reaches a RETURN(e) - in b itself, or in the chosen branch of an IF,
+     in pass k+1 of a WHILE or FOR of b, and so on to any depth - having evaluated e to v, leaving c'.  Every rule quantifies over
+     ALL texts `post` behind the RETURN / behind the statement that contains it.  Then the block ends right there with RETURN raised
+     and Result bound to v: nothing of any `post` is executed *)
+  Theorem C11_return_anywhere : forall n b (c : gcfg) v c', RETS n b c v c' ->
+    sem L funs n b c = Fin (Ret, bind_val L (l_result_name L) v c').
+  Proof. exact (rets_sem Name Atom Op Val World Bnd FId Err L funs). Qed.
+  (* ... and the call yields v, its frame dropped (without any RETURN: what Result is bound to - C11_return_keeps_result) *)
+  Theorem C11_return_value : forall n fd vs (c : gcfg) v c',
+    (forall x, l_name_eqb L x x = true) -> (forall w, l_view_of L (l_bnd_val L w) = BVal w) ->
+    RETS n (fd_body fd) (set_env c (ScriptSem.bind_params L (fd_params fd) 0 vs (env c))) v c' ->
+    call_body L (sem L funs n) fd vs c = Fin (v, set_env c' (tl (env c'))).
+  Proof. exact (call_returns Name Atom Op Val World Bnd FId Err L funs). Qed.
+  (* RETURN out of a FOR (WHILE: C11_return_from_loops): the loop ends in that pass, no increment, no further test *)
+  Theorem C11_return_from_for : forall blk cnd inc body line k left (c ck : gcfg) v c1 c2,
+    fpasses Name Atom Op Val World Bnd FId Err L funs blk cnd inc body k c ck -> (k < left)%nat ->
+    eval_opt L funs blk (l_vzero L) cnd ck = Fin (v, c1) -> l_truth L v = true -> blk body c1 = Fin (Ret, c2) ->
+    for_sem L funs blk left cnd inc body line c = Fin (Ret, c2).
+  Proof. exact (for_return Name Atom Op Val World Bnd FId Err L funs). Qed.
+End Return2.
+
+(* the machine: the call is over when the RETURN is reached; with function_needs_return_value (m) the value of e is pushed; the
+   callee's scope is popped; break_flag is back to what it was before the call (0: emb) *)
+Theorem C11_return_exec : forall ft, ft_ok ft = true -> forall n fd vs m (c : cfg (list ch) song vv) v c',
+  wf c -> toks_ok (f_body fd) = true ->
+  mrets ft n (prog_of (f_body fd)) (set_env c (Script.bind_params (f_params fd) 0 vs (env c))) v c' ->
+  finish_call (exec_s n) fd vs (emb ft m c) = Ok (if m then Some v else None, emb ft m (set_env c' (tl (env c')))).
+Proof. exact return_exec. Qed.
+
+(* ------------------------------------------------------------------------------------------------ *)
+(* 2.6 the caller's variables                                                                         *)
+(* What the code does: there is one stack of scopes; a call pushes a scope, binds the parameters in it, pops it at the end.       *)
+(* WRITES (declaration, `X = e` - also when X names a global -, X++, parameters, Result) always go to the current (innermost)    *)
+(* scope: C11_local_writes_only.  READS search the stack from the innermost scope outwards: a callee sees its own bindings first, *)
+(* then its caller's, then the globals (C11_scope_reads).  So nothing a callee does can change a variable of its caller or a      *)
+(* global: after the call all scopes of the caller are what they were.                                                            *)
+Theorem C11_scope_reads : forall Name Atom Op Val World Bnd FId Err (L : lang Name Atom Op Val World Bnd FId Err) x fr e,
+  lookup_frame L x fr = None -> lookup L x (fr :: e) = lookup L x e.
+Proof. exact lookup_through_frame. Qed.
+(* the machine: a call statement leaves every scope as it was, break_flag 0 ... *)
+Theorem C11_scope_call_exec : forall ft, ft_ok ft = true -> forall n id args m (c : cfg (list ch) song vv) st',
+  wf c -> sem ML (funs_of ft) (S n) (prog_of [SCall id args]) c <> Stuck ->
+  exec_s (S n) [SCall id args] (Ok (emb ft m c)) = Ok st' -> ss_scopes st' = env c /\ st_flag st' = 0.
+Proof. exact call_scopes_exec. Qed.
+(* ... so does exec_value on an expression with any calls inside ... *)
+Theorem C11_scope_value_exec : forall ft, ft_ok ft = true -> forall n e m (c : cfg (list ch) song vv) v st',
+  wf c -> eval_opt ML (funs_of ft) (sem ML (funs_of ft) n) (Expr.SInt 0) (oexpr_of e) c <> Stuck ->
+  exec_value_o (exec_s n) e (emb ft m c) = Ok (v, st') -> ss_scopes st' = env c /\ st_flag st' = 0.
+Proof. exact value_scopes_exec. Qed.
+(* ... and any block of tokens - a function body with its locals, assignments to global names, nested calls - changes at most the
+   scope it runs in: all scopes below are untouched *)
+Theorem C11_scope_block_exec : forall ft, ft_ok ft = true -> forall n toks m (c : cfg (list ch) song vv) st',
+  wf c -> toks_ok toks = true -> sem ML (funs_of ft) n (prog_of toks) c <> Stuck ->
+  exec_s n toks (Ok (emb ft m c)) = Ok st' -> tl (ss_scopes st') = tl (env c).
+Proof. exact block_scopes_exec. Qed.
+
+(* ------------------------------------------------------------------------------------------------ *)
+(* examples for part 2: the hypotheses of every theorem are met by a concrete program                  *)
+Ltac head_of t := match t with ?f _ => head_of f | _ => t end.
+Ltac lexed := match goal with |- match ?l with _ => _ end => let h := head_of l in cbv delta [h]; cbv beta iota; repeat match goal with |- let _ := _ in _ => intro end end.
+Ltac vmr := vm_compute; reflexivity.
+Ltac one_pass := eapply passes_S; [vmr | reflexivity | vmr | first [left; reflexivity | right; reflexivity] | ].
+Ltac one_fpass := eapply fpasses_S; [vmr | reflexivity | vmr | first [left; reflexivity | right; reflexivity] | vmr | ].
+Ltac one_spass := eapply straight_S; [vmr | reflexivity | vmr | ].
+Ltac one_fspass := eapply fstraight_S; [vmr | reflexivity | vmr | vmr | ].
+
+Definition src_while3 : list ch := zs "INT X=0 WHILE(X<3){ c X++ } PRINT(X)".
+Definition lexed_while3 := Eval vm_compute in lex_script src_while3.
+Definition src_for3 : list ch := zs "FOR(INT I=0;I<3;I++){ c PRINT(I) } d".
+Definition lexed_for3 := Eval vm_compute in lex_script src_for3.
+
+(* WHILE(X<3){ c X++ } from X = 0: three straight passes, then the test fails *)
+Example C11_example_loop_unroll_exec :
+  match lexed_while3 with
+  | Ok ([t0; t1; SWhile cnd body line; t3], ls) =>
+      let ft := sl_funcs ls in
+      exists c ck v, sem ML (funs_of ft) 2 (prog_of [t0; t1]) (cfg_after_lex ls) = Fin (Normal, c) /\
+        ft_ok ft = true /\ wf c /\ toks_ok body = true /\ toks_ok (reps_t 3 body) = true /\
+        mstraight ft 2 (oexpr_of cnd) (prog_of body) 3 c ck /\ (3 <= m_N)%nat /\
+        eval_opt ML (funs_of ft) (sem ML (funs_of ft) 2) (Expr.SInt 0) (oexpr_of cnd) ck = Fin (v, ck) /\ Expr.to_b v = false /\
+        (* both sides of C11_loop_unroll_exec / _text are a state in which X = 3 *)
+        (exists st, exec_s 3 [SWhile cnd body line] (Ok (emb ft false c)) = Ok st /\ Nat.iter 3 (exec_s 2 body) (Ok (emb ft false c)) = Ok st /\
+                    exec_s 3 (reps_t 3 body) (Ok (emb ft false c)) = Ok st /\ vars_lookup (zs "X") (ss_scopes st) = Some (VV (Expr.SInt 3)))
+  | _ => False
+  end.
+Proof.
+  lexed. eexists. eexists. eexists. do 5 (split; [vmr|]).
+  split; [one_spass; one_spass; one_spass; apply straight_O|]. split; [unfold m_N, MAX_LOOP; lia|]. split; [vmr|]. split; [reflexivity|].
+  eexists. split; [vmr|]. split; [vmr|]. split; vmr.
+Qed.
+Example C11_example_loop_unroll_exec_text : toks_ok (reps_t 3 [SCore (TLineNo 0); SValueInc (zs "X") 1]) = true /\ (3 <= m_N)%nat.
+Proof. split; [vmr | unfold m_N, MAX_LOOP; lia]. Qed.
+
+(* FOR(INT I=0;I<3;I++){ c PRINT(I) }: the initialiser, then three times (body; increment) *)
+Example C11_example_for_unroll_text :
+  match lexed_for3 with
+  | Ok ([t0; SFor init cnd inc body line; t2], ls) =>
+      let ft := sl_funcs ls in let c := cfg_after_lex ls in
+      exists c0 ck v, sem ML (funs_of ft) 2 (prog_of init) c = Fin (Normal, c0) /\
+        mfstraight ft 2 (oexpr_of cnd) (prog_of inc) (prog_of body) 3 c0 ck /\ (3 <= l_limit ML)%nat /\
+        eval_opt ML (funs_of ft) (sem ML (funs_of ft) 2) (Expr.SInt 0) (oexpr_of cnd) ck = Fin (v, ck) /\ Expr.to_b v = false /\
+        logs_str (s_logs (world ck)) = zs "[PRINT](0) 0" ++ [10] ++ zs "[PRINT](0) 1" ++ [10] ++ zs "[PRINT](0) 2"
+  | _ => False
+  end.
+Proof.
+  lexed. eexists. eexists. eexists. split; [vmr|].
+  split; [one_fspass; one_fspass; one_fspass; apply fstraight_O|]. split; [change (l_limit ML) with m_N; unfold m_N, MAX_LOOP; lia|].
+  split; [vmr|]. split; [reflexivity | vmr].
+Qed.
+Example C11_example_for_unroll_exec :
+  match lexed_for3 with
+  | Ok ([t0; SFor init cnd inc body line; t2], ls) =>
+      let ft := sl_funcs ls in let c := cfg_after_lex ls in
+      exists c0 ck v, ft_ok ft = true /\ wf c /\ toks_ok init = true /\ toks_ok inc = true /\ toks_ok body = true /\
+        toks_ok (init ++ reps_t 3 (body ++ inc)) = true /\
+        sem ML (funs_of ft) 2 (prog_of init) c = Fin (Normal, c0) /\
+        mfstraight ft 2 (oexpr_of cnd) (prog_of inc) (prog_of body) 3 c0 ck /\ (3 <= m_N)%nat /\
+        eval_opt ML (funs_of ft) (sem ML (funs_of ft) 2) (Expr.SInt 0) (oexpr_of cnd) ck = Fin (v, ck) /\ Expr.to_b v = false /\
+        (exists st, exec_s 3 [SFor init cnd inc body line] (Ok (emb ft false c)) = Ok st /\
+                    Nat.iter 3 (fun s => exec_s 2 inc (exec_s 2 body s)) (exec_s 2 init (Ok (emb ft false c))) = Ok st /\
+                    exec_s 3 (init ++ reps_t 3 (body ++ inc)) (Ok (emb ft false c)) = Ok st /\
+                    vars_lookup (zs "I") (ss_scopes st) = Some (VV (Expr.SInt 3)))
+  | _ => False
+  end.
+Proof.
+  lexed. eexists. eexists. eexists. do 6 (split; [vmr|]). split; [vmr|].
+  split; [one_fspass; one_fspass; one_fspass; apply fstraight_O|]. split; [unfold m_N, MAX_LOOP; lia|].
+  split; [vmr|]. split; [reflexivity|]. eexists. split; [vmr|]. split; [vmr|]. split; vmr.
+Qed.
+Example C11_example_for_unroll_exec_text :
+  match lexed_for3 with
+  | Ok ([t0; SFor init cnd inc body line; t2], ls) => toks_ok (init ++ reps_t 3 (body ++ inc)) = true /\ length (init ++ reps_t 3 (body ++ inc)) = 17%nat
+  | _ => False
+  end.
+Proof. vm_compute. split; reflexivity. Qed.
+
+(* ---- BREAK / CONTINUE ---- *)
+Definition src_nested : list ch := zs "INT X=0 WHILE(X<2){ INT Y=0 WHILE(1){ Y++ IF(Y>2){BREAK} c } X++ PRINT(X,Y) } PRINT(9)".
+Definition lexed_nested := Eval vm_compute in lex_script src_nested.
+Definition src_for_break : list ch := zs "FOR(INT I=0;I<9;I++){ IF(I>=2){BREAK} c } PRINT(I)".
+Definition lexed_for_break := Eval vm_compute in lex_script src_for_break.
+Definition src_continue : list ch := zs "INT X=0 WHILE(X<3){ X++ IF(X=2){CONTINUE} c }".
+Definition lexed_continue := Eval vm_compute in lex_script src_continue.
+Definition src_for_continue : list ch := zs "FOR(INT I=0;I<3;I++){ IF(I=1){CONTINUE} c }".
+Definition lexed_for_continue := Eval vm_compute in lex_script src_for_continue.
+Definition src_continue_text : list ch := zs "INT X=0 WHILE(X<3){ X++ CONTINUE c PRINT(X) }".
+Definition lexed_continue_text := Eval vm_compute in lex_script src_continue_text.
+Definition src_for_continue_text : list ch := zs "FOR(INT I=0;I<3;I++){ d CONTINUE c PRINT(I) }".
+Definition lexed_for_continue_text := Eval vm_compute in lex_script src_for_continue_text.
+
+(* the inner WHILE(1) of src_nested: two passes, BREAK (inside an IF) in the third; X++ PRINT(X,Y) follow *)
+Example C11_example_break_innermost_block :
+  match lexed_nested with
+  | Ok ([t0; t1; SWhile cndO [p0; p1; SWhile cndI bodyI lineI; q0; q1] lineO; t3], ls) =>
+      let ft := sl_funcs ls in
+      exists c c1 cj v c2 c3, sem ML (funs_of ft) 3 (prog_of [t0; t1]) (cfg_after_lex ls) = Fin (Normal, c) /\
+        exec_seq ML (funs_of ft) (sem ML (funs_of ft) 2) (prog_of [p0; p1]) c = Fin (Normal, c1) /\
+        mpasses ft 2 (oexpr_of cndI) (prog_of bodyI) 2 c1 cj /\ (2 < l_limit ML)%nat /\
+        eval_opt ML (funs_of ft) (sem ML (funs_of ft) 2) (Expr.SInt 0) (oexpr_of cndI) cj = Fin (v, c2) /\ Expr.to_b v = true /\
+        sem ML (funs_of ft) 2 (prog_of bodyI) c2 = Fin (Brk, c3) /\
+        lookup ML (zs "Y") (env c3) = Some (VV (Expr.SInt 3))
+  | _ => False
+  end.
+Proof.
+  lexed. do 6 eexists. do 2 (split; [vmr|]). split; [one_pass; one_pass; apply passes_O|].
+  split; [change (l_limit ML) with m_N; unfold m_N, MAX_LOOP; lia|]. split; [vmr|]. split; [vmr|]. split; vmr.
+Qed.
+Example C11_example_break_innermost_exec :
+  match lexed_nested with
+  | Ok ([t0; t1; SWhile cndO [p0; p1; SWhile cndI bodyI lineI; q0; q1] lineO; t3], ls) =>
+      let ft := sl_funcs ls in
+      exists c c1 cj v c2 c3, sem ML (funs_of ft) 3 (prog_of [t0; t1]) (cfg_after_lex ls) = Fin (Normal, c) /\
+        ft_ok ft = true /\ wf c /\ toks_ok ([p0; p1] ++ SWhile cndI bodyI lineI :: [q0; q1]) = true /\
+        exec_seq ML (funs_of ft) (sem ML (funs_of ft) 2) (prog_of [p0; p1]) c = Fin (Normal, c1) /\
+        mpasses ft 2 (oexpr_of cndI) (prog_of bodyI) 2 c1 cj /\ (2 < m_N)%nat /\
+        eval_opt ML (funs_of ft) (sem ML (funs_of ft) 2) (Expr.SInt 0) (oexpr_of cndI) cj = Fin (v, c2) /\ Expr.to_b v = true /\
+        sem ML (funs_of ft) 2 (prog_of bodyI) c2 = Fin (Brk, c3) /\
+        (* the machine goes on behind the inner loop: X++ PRINT(X,Y) logs `1 3` *)
+        (exists st, exec_s 3 ([p0; p1] ++ SWhile cndI bodyI lineI :: [q0; q1]) (Ok (emb ft false c)) = Ok st /\
+                    exec_s 3 [q0; q1] (Ok (emb ft false c3)) = Ok st /\ st_flag st = 0 /\ logs_str (s_logs (ss_song st)) = zs "[PRINT](0) 1 3")
+  | _ => False
+  end.
+Proof.
+  lexed. do 6 eexists. do 5 (split; [vmr|]). split; [one_pass; one_pass; apply passes_O|].
+  split; [unfold m_N, MAX_LOOP; lia|]. do 3 (split; [vmr|]). eexists. split; [vmr|]. split; [vmr|]. split; vmr.
+Qed.
+(* both levels: the outer WHILE(X<2) from X = 0 - its first pass contains the inner loop, its BREAK, then X++ PRINT(X,Y) *)
+Example C11_example_break_innermost_nested :
+  match lexed_nested with
+  | Ok ([t0; t1; SWhile cndO [p0; p1; SWhile cndI bodyI lineI; q0; q1] lineO; t3], ls) =>
+      let ft := sl_funcs ls in
+      exists c vO c0 c1 cj v c2 c3 sg c4, sem ML (funs_of ft) 4 (prog_of [t0; t1]) (cfg_after_lex ls) = Fin (Normal, c) /\
+        eval_opt ML (funs_of ft) (sem ML (funs_of ft) 3) (Expr.SInt 0) (oexpr_of cndO) c = Fin (vO, c0) /\ Expr.to_b vO = true /\
+        exec_seq ML (funs_of ft) (sem ML (funs_of ft) 2) (prog_of [p0; p1]) c0 = Fin (Normal, c1) /\
+        mpasses ft 2 (oexpr_of cndI) (prog_of bodyI) 2 c1 cj /\ (2 < l_limit ML)%nat /\
+        eval_opt ML (funs_of ft) (sem ML (funs_of ft) 2) (Expr.SInt 0) (oexpr_of cndI) cj = Fin (v, c2) /\ Expr.to_b v = true /\
+        sem ML (funs_of ft) 2 (prog_of bodyI) c2 = Fin (Brk, c3) /\
+        exec_seq ML (funs_of ft) (sem ML (funs_of ft) 2) (prog_of [q0; q1]) c3 = Fin (sg, c4) /\ (sg = Normal \/ sg = Cont) /\
+        lookup ML (zs "X") (env c4) = Some (VV (Expr.SInt 1))
+  | _ => False
+  end.
+Proof.
+  lexed. do 10 eexists. do 4 (split; [vmr|]). split; [one_pass; one_pass; apply passes_O|].
+  split; [change (l_limit ML) with m_N; unfold m_N, MAX_LOOP; lia|]. do 4 (split; [vmr|]). split; [left; reflexivity | vmr].
+Qed.
+(* the whole inner loop as a statement of the outer body: it ends Normal *)
+Example C11_example_loop_signals_stay_inside :
+  match lexed_nested with
+  | Ok ([t0; t1; SWhile cndO [p0; p1; SWhile cndI bodyI lineI; q0; q1] lineO; t3], ls) =>
+      let ft := sl_funcs ls in
+      exists c c1 sg c2, sem ML (funs_of ft) 3 (prog_of [t0; t1]) (cfg_after_lex ls) = Fin (Normal, c) /\
+        exec_seq ML (funs_of ft) (sem ML (funs_of ft) 2) (prog_of [p0; p1]) c = Fin (Normal, c1) /\
+        exec_stmt ML (funs_of ft) (sem ML (funs_of ft) 2) (While (oexpr_of cndI) (prog_of bodyI) lineI) c1 = Fin (sg, c2) /\ sg = Normal
+  | _ => False
+  end.
+Proof. lexed. do 4 eexists. do 2 (split; [vmr|]). split; vmr. Qed.
+
+(* FOR(INT I=0;I<9;I++){ IF(I>=2){BREAK} c }: two full passes, BREAK in the third; PRINT(I) behind it sees I = 2 (no increment) *)
+Example C11_example_break_innermost_for_block :
+  match lexed_for_break with
+  | Ok ([t0; SFor init cnd inc body line; t2], ls) =>
+      let ft := sl_funcs ls in let c := cfg_after_lex ls in
+      exists c1 c1' cj v c2 c3,
+        exec_seq ML (funs_of ft) (sem ML (funs_of ft) 2) (prog_of [t0]) c = Fin (Normal, c1) /\
+        sem ML (funs_of ft) 2 (prog_of init) c1 = Fin (Normal, c1') /\
+        mfpasses ft 2 (oexpr_of cnd) (prog_of inc) (prog_of body) 2 c1' cj /\ (2 < l_limit ML)%nat /\
+        eval_opt ML (funs_of ft) (sem ML (funs_of ft) 2) (Expr.SInt 0) (oexpr_of cnd) cj = Fin (v, c2) /\ Expr.to_b v = true /\
+        sem ML (funs_of ft) 2 (prog_of body) c2 = Fin (Brk, c3) /\ lookup ML (zs "I") (env c3) = Some (VV (Expr.SInt 2))
+  | _ => False
+  end.
+Proof.
+  lexed. do 6 eexists. do 2 (split; [vmr|]). split; [one_fpass; one_fpass; apply fpasses_O|].
+  split; [change (l_limit ML) with m_N; unfold m_N, MAX_LOOP; lia|]. do 3 (split; [vmr|]). vmr.
+Qed.
+Example C11_example_break_innermost_for_exec :
+  match lexed_for_break with
+  | Ok ([t0; SFor init cnd inc body line; t2], ls) =>
+      let ft := sl_funcs ls in let c := cfg_after_lex ls in
+      exists c1 c1' cj v c2 c3, ft_ok ft = true /\ wf c /\ toks_ok ([t0] ++ SFor init cnd inc body line :: [t2]) = true /\
+        exec_seq ML (funs_of ft) (sem ML (funs_of ft) 2) (prog_of [t0]) c = Fin (Normal, c1) /\
+        sem ML (funs_of ft) 2 (prog_of init) c1 = Fin (Normal, c1') /\
+        mfpasses ft 2 (oexpr_of cnd) (prog_of inc) (prog_of body) 2 c1' cj /\ (2 < m_N)%nat /\
+        eval_opt ML (funs_of ft) (sem ML (funs_of ft) 2) (Expr.SInt 0) (oexpr_of cnd) cj = Fin (v, c2) /\ Expr.to_b v = true /\
+        sem ML (funs_of ft) 2 (prog_of body) c2 = Fin (Brk, c3) /\
+        (exists st, exec_s 3 ([t0] ++ SFor init cnd inc body line :: [t2]) (Ok (emb ft false c)) = Ok st /\
+                    exec_s 3 [t2] (Ok (emb ft false c3)) = Ok st /\ logs_str (s_logs (ss_song st)) = zs "[PRINT](0) 2")
+  | _ => False
+  end.
+Proof.
+  lexed. do 6 eexists. do 5 (split; [vmr|]). split; [one_fpass; one_fpass; apply fpasses_O|].
+  split; [unfold m_N, MAX_LOOP; lia|]. do 3 (split; [vmr|]). eexists. split; [vmr|]. split; vmr.
+Qed.
+
+(* WHILE(X<3){ X++ IF(X=2){CONTINUE} c }: the second pass raises CONTINUE inside the IF *)
+Example C11_example_continue_innermost :
+  match lexed_continue with
+  | Ok ([t0; t1; SWhile cnd body line], ls) =>
+      let ft := sl_funcs ls in
+      exists c0 c v c1 c2, sem ML (funs_of ft) 3 (prog_of [t0; t1]) (cfg_after_lex ls) = Fin (Normal, c0) /\
+        mpasses ft 2 (oexpr_of cnd) (prog_of body) 1 c0 c /\
+        eval_opt ML (funs_of ft) (sem ML (funs_of ft) 2) (Expr.SInt 0) (oexpr_of cnd) c = Fin (v, c1) /\ Expr.to_b v = true /\
+        sem ML (funs_of ft) 2 (prog_of body) c1 = Fin (Cont, c2) /\ lookup ML (zs "X") (env c2) = Some (VV (Expr.SInt 2))
+  | _ => False
+  end.
+Proof. lexed. do 5 eexists. split; [vmr|]. split; [one_pass; apply passes_O|]. do 3 (split; [vmr|]). vmr. Qed.
+(* FOR(INT I=0;I<3;I++){ IF(I=1){CONTINUE} c }: the pass with I = 1 raises CONTINUE; the increment still makes I = 2 *)
+Example C11_example_continue_innermost_for :
+  match lexed_for_continue with
+  | Ok ([t0; SFor init cnd inc body line], ls) =>
+      let ft := sl_funcs ls in
+      exists c0 c v c1 c2 c3, sem ML (funs_of ft) 2 (prog_of init) (cfg_after_lex ls) = Fin (Normal, c0) /\
+        mfpasses ft 2 (oexpr_of cnd) (prog_of inc) (prog_of body) 1 c0 c /\
+        eval_opt ML (funs_of ft) (sem ML (funs_of ft) 2) (Expr.SInt 0) (oexpr_of cnd) c = Fin (v, c1) /\ Expr.to_b v = true /\
+        sem ML (funs_of ft) 2 (prog_of body) c1 = Fin (Cont, c2) /\ sem ML (funs_of ft) 2 (prog_of inc) c2 = Fin (Normal, c3) /\
+        lookup ML (zs "I") (env c3) = Some (VV (Expr.SInt 2))
+  | _ => False
+  end.
+Proof. lexed. do 6 eexists. split; [vmr|]. split; [one_fpass; apply fpasses_O|]. do 4 (split; [vmr|]). vmr. Qed.
+
+(* the initialiser `INT I=0` and the increment `I++` of a lexed FOR raise nothing, from any configuration *)
+Example C11_example_for_signals :
+  match lexed_for_break with
+  | Ok ([t0; SFor init cnd inc body line; t2], ls) =>
+      let ft := sl_funcs ls in
+      (forall c sg c', sem ML (funs_of ft) 2 (prog_of init) c = Fin (sg, c') -> sg = Normal) /\
+      (forall c sg c', sem ML (funs_of ft) 2 (prog_of inc) c = Fin (sg, c') -> sg = Normal)
+  | _ => False
+  end.
+Proof.
+  lexed. split; intros c sg c' H; (eapply (plain_sem_normal _ _ _ _ _ _ _ _ ML); [|exact H]); vmr.
+Qed.
+Example C11_example_for_plain_signals :
+  match lexed_for_break with
+  | Ok ([t0; SFor init cnd inc body line; t2], ls) =>
+      let ft := sl_funcs ls in
+      forallb (plain_stmt (list ch) Token.tok mop nat) (prog_of init) = true /\ forallb (plain_stmt (list ch) Token.tok mop nat) (prog_of inc) = true /\
+      exists c', exec_stmt ML (funs_of ft) (sem ML (funs_of ft) 2) (For (prog_of init) (oexpr_of cnd) (prog_of inc) (prog_of body) line) (cfg_after_lex ls)
+                 = Fin (Normal, c')
+  | _ => False
+  end.
+Proof. lexed. do 2 (split; [vmr|]). eexists. vmr. Qed.
+
+(* WHILE(X<3){ X++ CONTINUE c PRINT(X) }: `c PRINT(X)` is never run - no note, no log line - exactly as for WHILE(X<3){ X++ } *)
+Example C11_example_continue_skips_text :
+  match lexed_continue_text with
+  | Ok ([t0; t1; SWhile cnd [b0; b1; SContinue; b3; b4] line], ls) =>
+      let ft := sl_funcs ls in
+      exists c r, sem ML (funs_of ft) 3 (prog_of [t0; t1]) (cfg_after_lex ls) = Fin (Normal, c) /\
+        ft_ok ft = true /\ wf c /\ toks_ok ([b0; b1] ++ SContinue :: [b3; b4]) = true /\
+        sem ML (funs_of ft) 3 (prog_of [SWhile cnd [b0; b1] line]) c <> Stuck /\
+        exec_stmt ML (funs_of ft) (sem ML (funs_of ft) 2) (While (oexpr_of cnd) (prog_of [b0; b1] ++ Continue :: prog_of [b3; b4]) line) c = Fin r /\
+        exec_stmt ML (funs_of ft) (sem ML (funs_of ft) 2) (While (oexpr_of cnd) (prog_of [b0; b1]) line) c = Fin r /\
+        s_logs (world (snd r)) = [] /\ lookup ML (zs "X") (env (snd r)) = Some (VV (Expr.SInt 3)) /\
+        exec_s 3 [SWhile cnd ([b0; b1] ++ SContinue :: [b3; b4]) line] (Ok (emb ft false c)) = Ok (emb ft false (snd r))
+  | _ => False
+  end.
+Proof. lexed. do 2 eexists. do 4 (split; [vmr|]). split; [vm_compute; discriminate|]. do 4 (split; [vmr|]). vmr. Qed.
+Example C11_example_continue_skips_text_for :
+  match lexed_for_continue_text with
+  | Ok ([t0; SFor init cnd inc [b0; b1; SContinue; b3; b4] line], ls) =>
+      let ft := sl_funcs ls in let c := cfg_after_lex ls in
+      exists r, ft_ok ft = true /\ wf c /\ toks_ok init = true /\ toks_ok inc = true /\ toks_ok ([b0; b1] ++ SContinue :: [b3; b4]) = true /\
+        sem ML (funs_of ft) 3 (prog_of [SFor init cnd inc [b0; b1] line]) c <> Stuck /\
+        exec_stmt ML (funs_of ft) (sem ML (funs_of ft) 2)
+          (For (prog_of init) (oexpr_of cnd) (prog_of inc) (prog_of [b0; b1] ++ Continue :: prog_of [b3; b4]) line) c = Fin r /\
+        exec_stmt ML (funs_of ft) (sem ML (funs_of ft) 2) (For (prog_of init) (oexpr_of cnd) (prog_of inc) (prog_of [b0; b1]) line) c = Fin r /\
+        s_logs (world (snd r)) = [] /\ lookup ML (zs "I") (env (snd r)) = Some (VV (Expr.SInt 3)) /\
+        exec_s 3 [SFor init cnd inc ([b0; b1] ++ SContinue :: [b3; b4]) line] (Ok (emb ft false c)) = Ok (emb ft false (snd r))
+  | _ => False
+  end.
+Proof. lexed. eexists. do 5 (split; [vmr|]). split; [vm_compute; discriminate|]. do 4 (split; [vmr|]). vmr. Qed.
+
+(* ---- the iteration limit ---- *)
+(* the language ex_lang (limit 2): a loop that never ends, every pass adds 1 to the world, the limit note adds 100 *)
+Example C11_example_limit_never_ends :
+  let blk := fun (b : list (stmt nat unit unit nat)) (c : cfg nat nat nat) => Fin (Normal, mkCfg (S (world c)) (env c)) : result unit _ in
+  let Inv := fun _ : cfg nat nat nat => True in
+  (forall c, Inv c -> exists v c1 sg c2,
+      eval_opt ex_lang (fun _ => None) blk (l_vzero ex_lang) (Some (EOp tt [])) c = Fin (v, c1) /\ l_truth ex_lang v = true /\
+      blk [] c1 = Fin (sg, c2) /\ (sg = Normal \/ sg = Cont) /\ Inv c2) /\
+  Inv (mkCfg 0%nat []) /\
+  while_sem ex_lang (fun _ => None) blk 2 (Some (EOp tt [])) [] 0 (mkCfg 0%nat []) = Fin (Normal, mkCfg 103%nat []).
+Proof.
+  cbv zeta. split; [|split; [exact I | reflexivity]].
+  intros c _. exists 1%nat, c, Normal, (mkCfg (S (world c)) (env c)). repeat split; auto.
+Qed.
+(* FOR: two full passes (body, increment), then the body once more: 5, and the note *)
+Example C11_example_limit_never_ends_for :
+  let blk := fun (b : list (stmt nat unit unit nat)) (c : cfg nat nat nat) => Fin (Normal, mkCfg (S (world c)) (env c)) : result unit _ in
+  let Inv := fun _ : cfg nat nat nat => True in
+  (forall c, Inv c -> exists v c1 sg c2 c3,
+      eval_opt ex_lang (fun _ => None) blk (l_vzero ex_lang) (Some (EOp tt [])) c = Fin (v, c1) /\ l_truth ex_lang v = true /\
+      blk [] c1 = Fin (sg, c2) /\ (sg = Normal \/ sg = Cont) /\ blk [Leaf tt] c2 = Fin (Normal, c3) /\ Inv c3) /\
+  Inv (mkCfg 0%nat []) /\
+  for_sem ex_lang (fun _ => None) blk 2 (Some (EOp tt [])) [Leaf tt] [] 0 (mkCfg 0%nat []) = Fin (Normal, mkCfg 105%nat []).
+Proof.
+  cbv zeta. split; [|split; [exact I | reflexivity]].
+  intros c _. exists 1%nat, c, Normal, (mkCfg (S (world c)) (env c)), (mkCfg (S (S (world c))) (env c)). repeat split; auto.
+Qed.
+
+(* the model: WHILE(1){X++} keeps "X is bound to a value" at every test; the source logs the error once and prints 10001 *)
+Definition src_limit : list ch := zs "INT X=0 WHILE(1){X++} PRINT(X)".
+Definition lexed_limit := Eval vm_compute in lex_script src_limit.
+Definition limit_cnd : option Expr.tok := Some (Expr.TConstInt 1).
+Definition limit_body : list stok := [SCore (TLineNo 0); SValueInc (zs "X") 1].
+Definition limit_rest : list stok := [SPrint [Some (Expr.TGetVar (zs "X"))] 0].
+Definition has_var (x : list ch) (c : cfg (list ch) song vv) : Prop := exists v, vars_lookup x (env c) = Some (VV v).
+Lemma has_var_bind x v c : has_var x (bind_val ML x v c).
+Proof.
+  exists v. unfold bind_val. cbn [env set_env ML l_bnd_val]. destruct (env c) as [|fr r]; cbn [bind vars_lookup scope_get]; rewrite name_eqb_refl_m; reflexivity.
+Qed.
+Lemma has_var_bind_any x y v c : has_var x c -> has_var x (bind_val ML y v c).
+Proof.
+  intros [w H]. unfold has_var, bind_val. cbn [env set_env ML l_bnd_val]. destruct (env c) as [|fr r]; [discriminate H|].
+  cbn [bind vars_lookup scope_get] in *. destruct (list_eqb y x); eauto.
+Qed.
+Example C11_example_limit_exec :
+  lex_script src_limit = lexed_limit /\
+  match lexed_limit with
+  | Ok (t0 :: t1 :: SWhile cnd body line :: rest, ls) =>
+      cnd = limit_cnd /\ body = limit_body /\ line = 0 /\ rest = limit_rest /\ sl_funcs ls = [] /\
+      exists c, sem ML (funs_of []) 2 (prog_of [t0; t1]) (cfg_after_lex ls) = Fin (Normal, c) /\ wf c /\ has_var (zs "X") c
+  | _ => False
+  end /\
+  ft_ok [] = true /\ toks_ok (SWhile limit_cnd limit_body 0 :: limit_rest) = true /\
+  (forall c0, has_var (zs "X") c0 -> exists v c1 sg c2,
+      eval_opt ML (funs_of []) (sem ML (funs_of []) 1) (Expr.SInt 0) (oexpr_of limit_cnd) c0 = Fin (v, c1) /\ Expr.to_b v = true /\
+      sem ML (funs_of []) 1 (prog_of limit_body) c1 = Fin (sg, c2) /\ (sg = Normal \/ sg = Cont) /\ has_var (zs "X") c2) /\
+  match compile_script src_limit with
+  | Ok (_, log) => log = zs "[ERROR](0) Loop too many times WHILE(>10000)" ++ [10] ++ zs "[PRINT](0) 10001"
+  | _ => False
+  end.
+Proof.
+  split; [vmr|]. split.
+  { unfold lexed_limit. do 5 (split; [reflexivity|]). eexists. split; [vmr|]. split; [vmr|]. eexists. vmr. }
+  split; [vmr|]. split; [vmr|]. split; [|vmr].
+  intros c0 [v0 H0].
+  exists (Expr.SInt 1), c0, Normal, (bind_val ML (zs "X") (m_incr v0 1) (set_world c0 (s_set_lineno (world c0) 0))).
+  split; [reflexivity|]. split; [reflexivity|]. split; [|split; [left; reflexivity | apply has_var_bind]].
+  cbn [sem limit_body prog_of map stmt_of exec_seq exec_stmt ML l_atom_sem rbind fst snd]. unfold m_atom. cbn [step_song res_to_result rbind fst snd].
+  cbn [l_view_of l_vzero l_vincr env set_world]. change (lookup ML (zs "X") (env c0)) with (vars_lookup (zs "X") (env c0)).
+  rewrite H0. reflexivity.
+Qed.
+Definition src_limit_for : list ch := zs "INT X=0 FOR(INT I=0;1;I++){X++} PRINT(X,I)".
+Definition lexed_limit_for := Eval vm_compute in lex_script src_limit_for.
+Definition limitf_inc : list stok := [SCore (TLineNo 0); SValueInc (zs "I") 1].
+Example C11_example_limit_for_exec :
+  lex_script src_limit_for = lexed_limit_for /\
+  match lexed_limit_for with
+  | Ok (t0 :: t1 :: SFor init cnd inc body line :: rest, ls) =>
+      cnd = limit_cnd /\ inc = limitf_inc /\ body = limit_body /\ sl_funcs ls = [] /\
+      toks_ok (SFor init cnd inc body line :: rest) = true /\
+      exists c c0, sem ML (funs_of []) 2 (prog_of [t0; t1]) (cfg_after_lex ls) = Fin (Normal, c) /\ wf c /\
+                   sem ML (funs_of []) 1 (prog_of init) c = Fin (Normal, c0) /\ has_var (zs "X") c0 /\ has_var (zs "I") c0
+  | _ => False
+  end /\
+  (forall c1, has_var (zs "X") c1 /\ has_var (zs "I") c1 -> exists v c2 sg c3 c4,
+      eval_opt ML (funs_of []) (sem ML (funs_of []) 1) (Expr.SInt 0) (oexpr_of limit_cnd) c1 = Fin (v, c2) /\ Expr.to_b v = true /\
+      sem ML (funs_of []) 1 (prog_of limit_body) c2 = Fin (sg, c3) /\ (sg = Normal \/ sg = Cont) /\
+      sem ML (funs_of []) 1 (prog_of limitf_inc) c3 = Fin (Normal, c4) /\ has_var (zs "X") c4 /\ has_var (zs "I") c4) /\
+  match compile_script src_limit_for with
+  | Ok (_, log) => log = zs "[ERROR](0) Loop too many times FOR(>10000)" ++ [10] ++ zs "[PRINT](0) 10001 10000"
+  | _ => False
+  end.
+Proof.
+  split; [vmr|]. split.
+  { unfold lexed_limit_for. do 4 (split; [reflexivity|]). split; [vmr|]. do 2 eexists. do 3 (split; [vmr|]). split; eexists; vmr. }
+  split; [|vmr].
+  intros c1 [[vx Hx] Hi].
+  set (c3 := bind_val ML (zs "X") (m_incr vx 1) (set_world c1 (s_set_lineno (world c1) 0))).
+  destruct (has_var_bind_any (zs "I") (zs "X") (m_incr vx 1) (set_world c1 (s_set_lineno (world c1) 0)) Hi) as [vi' Hi'].
+  exists (Expr.SInt 1), c1, Normal, c3, (bind_val ML (zs "I") (m_incr vi' 1) (set_world c3 (s_set_lineno (world c3) 0))).
+  split; [reflexivity|]. split; [reflexivity|]. split.
+  { cbn [sem limit_body prog_of map stmt_of exec_seq exec_stmt ML l_atom_sem rbind fst snd]. unfold m_atom. cbn [step_song res_to_result rbind fst snd].
+    cbn [l_view_of l_vzero l_vincr env set_world]. change (lookup ML (zs "X") (env c1)) with (vars_lookup (zs "X") (env c1)).
+    rewrite Hx. reflexivity. }
+  split; [left; reflexivity|]. split.
+  { cbn [sem limitf_inc prog_of map stmt_of exec_seq exec_stmt ML l_atom_sem rbind fst snd]. unfold m_atom. cbn [step_song res_to_result rbind fst snd].
+    cbn [l_view_of l_vzero l_vincr env set_world]. change (lookup ML (zs "I") (env c3)) with (vars_lookup (zs "I") (env c3)).
+    change (env c3) with (env (bind_val ML (zs "X") (m_incr vx 1) (set_world c1 (s_set_lineno (world c1) 0)))).
+    rewrite Hi'. reflexivity. }
+  split; [apply has_var_bind_any, has_var_bind | apply has_var_bind].
+Qed.
+
+(* ---- declared defaults ---- *)
+(* FUNCTION F(A,B=7,C=9) called with one value, with a valueless second argument, with four values *)
+Definition ex_params : list (list ch * Expr.sval) := [(zs "A", Expr.SInt 0); (zs "B", Expr.SInt 7); (zs "C", Expr.SInt 9)].
+Example C11_example_defaults_fill :
+  mfill ex_params [Expr.SInt 1] = [Expr.SInt 1; Expr.SInt 7; Expr.SInt 9] /\
+  mfill ex_params [Expr.SInt 1; Expr.SNone; Expr.SInt 3] = [Expr.SInt 1; Expr.SInt 7; Expr.SInt 3] /\
+  mfill ex_params [Expr.SInt 1; Expr.SInt 2; Expr.SInt 3; Expr.SInt 4] = [Expr.SInt 1; Expr.SInt 2; Expr.SInt 3] /\
+  mfill ex_params [] = [Expr.SInt 0; Expr.SInt 7; Expr.SInt 9].
+Proof. vm_compute. repeat split. Qed.
+Example C11_example_defaults_given :
+  nth_error ex_params 0 = Some (zs "A", Expr.SInt 0) /\ l_is_none ML (nth 0 [Expr.SInt 1; Expr.SNone] (l_vnone ML)) = false /\
+  nth 0 (mfill ex_params [Expr.SInt 1; Expr.SNone]) (l_vnone ML) = Expr.SInt 1.
+Proof. vm_compute. repeat split. Qed.
+Example C11_example_defaults_missing :
+  l_is_none ML (l_vnone ML) = true /\ nth_error ex_params 2 = Some (zs "C", Expr.SInt 9) /\ (length [Expr.SInt 1; Expr.SNone] <= 2)%nat /\
+  nth 2 (mfill ex_params [Expr.SInt 1; Expr.SNone]) (l_vnone ML) = Expr.SInt 9.
+Proof. vm_compute. repeat split; auto. Qed.
+Example C11_example_defaults_valueless :
+  nth_error ex_params 1 = Some (zs "B", Expr.SInt 7) /\ l_is_none ML (nth 1 [Expr.SInt 1; Expr.SNone] (l_vnone ML)) = true /\
+  nth 1 (mfill ex_params [Expr.SInt 1; Expr.SNone]) (l_vnone ML) = Expr.SInt 7.
+Proof. vm_compute. repeat split. Qed.
+Example C11_example_defaults_entry_exec :
+  nth_error ex_params 1 = Some (zs "B", Expr.SInt 7) /\ nth 1 (mfill ex_params [Expr.SInt 1]) Expr.SNone = Expr.SInt 7 /\ length (mfill ex_params [Expr.SInt 1]) = 3%nat.
+Proof. vm_compute. repeat split. Qed.
+(* the source: F(1) = F(1,7,9), F(1,2) = F(1,2,9), a fourth argument is ignored, F() takes all three defaults *)
+Definition src_defaults : list ch := zs "FUNCTION F(A,B=7,C=9){ RETURN(A*100+B*10+C) } PRINT(F(1),F(1,2),F(1,2,3,4),F())".
+Definition lexed_defaults := Eval vm_compute in lex_script src_defaults.
+Example C11_example_defaults_exec :
+  lex_script src_defaults = lexed_defaults /\
+  match lexed_defaults with
+  | Ok (_, ls) =>
+      match sl_funcs ls with
+      | [fd] =>
+          let st := emb [fd] true (push_frame (cfg_after_lex ls)) in
+          f_params fd = ex_params /\
+          (exists r, finish_call (exec_s 3) fd [Expr.SInt 1] st = Ok (Some (Expr.SInt 179), r) /\
+                     finish_call (exec_s 3) fd (mfill (f_params fd) [Expr.SInt 1]) st = Ok (Some (Expr.SInt 179), r))
+      | _ => False
+      end
+  | _ => False
+  end /\
+  match compile_script src_defaults with Ok (_, log) => log = zs "[PRINT](0) 179 129 123 79" | _ => False end.
+Proof.
+  split; [vmr|]. split; [|vmr]. unfold lexed_defaults. cbv beta iota. cbn [sl_funcs]. cbv beta iota zeta. split; [reflexivity|]. eexists. split; vmr.
+Qed.
+Example C11_example_extra_args :
+  match lexed_defaults with
+  | Ok (_, ls) =>
+      match sl_funcs ls with
+      | [fd] =>
+          let st := emb [fd] true (push_frame (cfg_after_lex ls)) in
+          let vs := [Expr.SInt 1; Expr.SInt 2; Expr.SInt 3] in
+          (length (f_params fd) <= length vs)%nat /\ (length (fd_params (fundef_of fd)) <= length vs)%nat /\
+          (exists r, finish_call (exec_s 3) fd (vs ++ [Expr.SInt 4]) st = Ok (Some (Expr.SInt 123), r) /\
+                     finish_call (exec_s 3) fd vs st = Ok (Some (Expr.SInt 123), r))
+      | _ => False
+      end
+  | _ => False
+  end.
+Proof.
+  unfold lexed_defaults. cbv beta iota. cbn [sl_funcs]. cbv beta iota zeta. split; [vm_compute; lia|]. split; [vm_compute; lia|]. eexists. split; vmr.
+Qed.
+
+(* ---- RETURN ---- *)
+(* F(2): in the second pass of WHILE(1), inside the IF, RETURN(I*10); `c` behind it, `d` behind the IF, `e` behind the loop are
+   not executed in that pass (d was, once, in the first pass) *)
+Definition src_return : list ch := zs "FUNCTION F(N){ INT I=0 WHILE(1){ I++ IF(I>=N){ RETURN(I*10) c } d } e } PRINT(F(2)) F(3)".
+Definition lexed_return := Eval vm_compute in lex_script src_return.
+Ltac rets_cons :=
+  try match goal with |- rets _ _ _ _ _ _ _ _ _ _ _ (if ?t then _ else _) _ _ _ =>
+        let t' := eval vm_compute in t in change t with t'; cbv beta iota end;
+  cbn [prog_of map stmt_of oexpr_of option_map];
+  match goal with
+  | |- rets _ _ _ _ _ _ _ _ ?L ?F (S ?n) (?a :: Return (Some ?e) :: ?post) _ _ _ =>
+      eapply (rets_here _ _ _ _ _ _ _ _ L F n [a] e post); [vmr | vmr]
+  | |- rets _ _ _ _ _ _ _ _ ?L ?F (S ?n) (?a :: ?b :: If ?c ?th ?el :: ?post) _ _ _ =>
+      eapply (rets_if _ _ _ _ _ _ _ _ L F n [a; b] c th el post); [vmr | vmr | ]
+  | |- rets _ _ _ _ _ _ _ _ ?L ?F (S ?n) (?a :: ?b :: While ?c ?bd ?l :: ?post) _ _ _ =>
+      eapply (rets_while _ _ _ _ _ _ _ _ L F n [a; b] c bd l post); [vmr | | | | | ]
+  end.
+(* the hypotheses of C11_return_anywhere, C11_return_value and C11_return_exec together *)
+Example C11_example_return_anywhere_value_exec :
+  lex_script src_return = lexed_return /\
+  match lexed_return with
+  | Ok (_, ls) =>
+      match sl_funcs ls with
+      | [fd] =>
+          let ft := [fd] in let c := push_frame (cfg_after_lex ls) in
+          exists v c', ft_ok ft = true /\ wf c /\ toks_ok (f_body fd) = true /\
+            (forall x, l_name_eqb ML x x = true) /\ (forall w, l_view_of ML (l_bnd_val ML w) = BVal w) /\
+            mrets ft 4 (prog_of (f_body fd)) (set_env c (Script.bind_params (f_params fd) 0 [Expr.SInt 2] (env c))) v c' /\
+            v = Expr.SInt 20 /\
+            finish_call (exec_s 4) fd [Expr.SInt 2] (emb ft true c) = Ok (Some v, emb ft true (set_env c' (tl (env c'))))
+      | _ => False
+      end
+  | _ => False
+  end /\
+  match compile_script src_return with Ok (_, log) => log = zs "[PRINT](0) 20" | _ => False end.
+Proof.
+  split; [vmr|]. split; [|vmr]. unfold lexed_return. cbv beta iota zeta delta [sl_funcs].
+  do 2 eexists. do 3 (split; [vmr|]). split; [exact name_eqb_refl_m|]. split; [reflexivity|]. split.
+  { cbn [f_body f_params]. rets_cons.
+    - one_pass. apply passes_O.
+    - change (l_limit ML) with m_N; unfold m_N, MAX_LOOP; lia.
+    - vmr.
+    - vmr.
+    - rets_cons. rets_cons. }
+  split; vmr.
+Qed.
+(* FOR(INT I=0;I<9;I++){ IF(I>=2){RETURN(7)} c }: two full passes, RETURN in the third *)
+Definition src_for_return : list ch := zs "FOR(INT I=0;I<9;I++){ IF(I>=2){RETURN(7)} c } d".
+Definition lexed_for_return := Eval vm_compute in lex_script src_for_return.
+Example C11_example_return_from_for :
+  lex_script src_for_return = lexed_for_return /\
+  match lexed_for_return with
+  | Ok ([t0; SFor init cnd inc body line; t2], ls) =>
+      let ft := sl_funcs ls in
+      exists c ck v c1 c2, sem ML (funs_of ft) 2 (prog_of init) (cfg_after_lex ls) = Fin (Normal, c) /\
+        mfpasses ft 2 (oexpr_of cnd) (prog_of inc) (prog_of body) 2 c ck /\ (2 < m_N)%nat /\
+        eval_opt ML (funs_of ft) (sem ML (funs_of ft) 2) (Expr.SInt 0) (oexpr_of cnd) ck = Fin (v, c1) /\ Expr.to_b v = true /\
+        sem ML (funs_of ft) 2 (prog_of body) c1 = Fin (Ret, c2) /\ lookup ML t_Result (env c2) = Some (VV (Expr.SInt 7))
+  | _ => False
+  end.
+Proof.
+  split; [vmr|]. lexed. do 5 eexists. split; [vmr|]. split; [one_fpass; one_fpass; apply fpasses_O|].
+  split; [unfold m_N, MAX_LOOP; lia|]. do 3 (split; [vmr|]). vmr.
+Qed.
+
+(* ---- scopes ---- *)
+(* F has a parameter named like the global Y, assigns to the global name X, declares a local Z; the caller's X and Y are 1 and 2
+   before and after the call *)
+Definition src_scope : list ch := zs "INT X=1 INT Y=2 FUNCTION F(Y){ X=5 INT Z=7 Y=Y+1 PRINT(X,Y,Z) } F(10) PRINT(X,Y)".
+Definition lexed_scope := Eval vm_compute in lex_script src_scope.
+Example C11_example_scope_call_exec :
+  lex_script src_scope = lexed_scope /\
+  match lexed_scope with
+  | Ok ([t0; t1; t2; SCall id args; t4], ls) =>
+      let ft := sl_funcs ls in
+      exists c st', sem ML (funs_of ft) 3 (prog_of [t0; t1; t2]) (cfg_after_lex ls) = Fin (Normal, c) /\
+        ft_ok ft = true /\ wf c /\ sem ML (funs_of ft) 4 (prog_of [SCall id args]) c <> Stuck /\
+        exec_s 4 [SCall id args] (Ok (emb ft false c)) = Ok st' /\
+        logs_str (s_logs (ss_song st')) = zs "[PRINT](0) 5 11 7" /\
+        vars_lookup (zs "X") (ss_scopes st') = Some (VV (Expr.SInt 1)) /\ vars_lookup (zs "Y") (ss_scopes st') = Some (VV (Expr.SInt 2)) /\
+        vars_lookup (zs "Z") (ss_scopes st') = None
+  | _ => False
+  end.
+Proof.
+  split; [vmr|]. lexed. do 2 eexists. do 3 (split; [vmr|]). split; [vm_compute; discriminate|]. do 4 (split; [vmr|]). vmr.
+Qed.
+(* the body of F as a block, run in the scope the call pushed (parameter bound): it binds X, Z, Y in that scope only *)
+Example C11_example_scope_block_exec :
+  match lexed_scope with
+  | Ok ([t0; t1; t2; SCall id args; t4], ls) =>
+      match sl_funcs ls with
+      | [fd] =>
+        let ft := [fd] in
+        exists c c1 st', sem ML (funs_of ft) 3 (prog_of [t0; t1; t2]) (cfg_after_lex ls) = Fin (Normal, c) /\
+          c1 = set_env c (Script.bind_params (f_params fd) 0 [Expr.SInt 10] ([] :: env c)) /\
+          ft_ok ft = true /\ wf c1 /\ toks_ok (f_body fd) = true /\ sem ML (funs_of ft) 3 (prog_of (f_body fd)) c1 <> Stuck /\
+          exec_s 3 (f_body fd) (Ok (emb ft false c1)) = Ok st' /\
+          map (map fst) (firstn 1 (ss_scopes st')) = [[zs "Y"; zs "Z"; zs "X"; zs "Y"]] /\ tl (ss_scopes st') = env c
+      | _ => False
+      end
+  | _ => False
+  end.
+Proof.
+  unfold lexed_scope. cbv beta iota zeta delta [sl_funcs]. do 3 eexists. split; [vmr|]. split; [reflexivity|]. do 3 (split; [vmr|]).
+  split; [vm_compute; discriminate|]. split; [vmr|]. split; vmr.
+Qed.
+(* G(5) inside an expression: G assigns to the global name X; the caller's X is still 1 when the value 11 comes back *)
+Definition src_scope_value : list ch := zs "FUNCTION G(A){ X=A*2 RETURN(X+1) } INT X=1 PRINT(G(5),X)".
+Definition lexed_scope_value := Eval vm_compute in lex_script src_scope_value.
+Example C11_example_scope_value_exec :
+  lex_script src_scope_value = lexed_scope_value /\
+  match lexed_scope_value with
+  | Ok ([t0; t1; SPrint [e; e2] line], ls) =>
+      let ft := sl_funcs ls in
+      exists c v st', sem ML (funs_of ft) 3 (prog_of [t0; t1]) (cfg_after_lex ls) = Fin (Normal, c) /\
+        ft_ok ft = true /\ wf c /\ eval_opt ML (funs_of ft) (sem ML (funs_of ft) 3) (Expr.SInt 0) (oexpr_of e) c <> Stuck /\
+        exec_value_o (exec_s 3) e (emb ft false c) = Ok (v, st') /\ v = Expr.SInt 11 /\
+        ss_scopes st' = env c /\ vars_lookup (zs "X") (ss_scopes st') = Some (VV (Expr.SInt 1))
+  | _ => False
+  end.
+Proof.
+  split; [vmr|]. lexed. do 3 eexists. do 3 (split; [vmr|]). split; [vm_compute; discriminate|]. do 3 (split; [vmr|]). vmr.
+Qed.
+(* reads: the frame of F(Y) does not bind X, so inside F `X` is the caller's X (here: the global) *)
+Example C11_example_scope_reads :
+  let fr := [(zs "Y", VV (Expr.SInt 10))] in let e := [[(zs "Y", VV (Expr.SInt 2)); (zs "X", VV (Expr.SInt 1))]] in
+  lookup_frame ML (zs "X") fr = None /\ lookup ML (zs "X") (fr :: e) = Some (VV (Expr.SInt 1)) /\ lookup ML (zs "Y") (fr :: e) = Some (VV (Expr.SInt 10)).
+Proof. vm_compute. repeat split. Qed.
+
+(* the token lists the examples above are stated over are what the lexer reads from the sources *)
+Example C11_example_lexed :
+  lex_script src_while3 = lexed_while3 /\
+  lex_script src_for3 = lexed_for3 /\
+  lex_script src_nested = lexed_nested /\
+  lex_script src_for_break = lexed_for_break /\
+  lex_script src_continue = lexed_continue /\
+  lex_script src_for_continue = lexed_for_continue /\
+  lex_script src_continue_text = lexed_continue_text /\
+  lex_script src_for_continue_text = lexed_for_continue_text /\
+  lex_script src_limit = lexed_limit /\
+  lex_script src_limit_for = lexed_limit_for /\
+  lex_script src_defaults = lexed_defaults /\
+  lex_script src_return = lexed_return /\
+  lex_script src_for_return = lexed_for_return /\
+  lex_script src_scope = lexed_scope /\
+  lex_script src_scope_value = lexed_scope_value.
+Proof. repeat split; vm_compute; reflexivity. Qed.
+
+Print Assumptions C11_for_unroll_text.
+Print Assumptions C11_loop_unroll_exec.
+Print Assumptions C11_loop_unroll_exec_text.
+Print Assumptions C11_for_unroll_exec.
+Print Assumptions C11_for_unroll_exec_text.
+Print Assumptions C11_break_innermost_block.
+Print Assumptions C11_break_innermost_for_block.
+Print Assumptions C11_continue_innermost.
+Print Assumptions C11_continue_innermost_for.
+Print Assumptions C11_loop_signals_stay_inside.
+Print Assumptions C11_for_signals.
+Print Assumptions C11_for_plain_signals.
+Print Assumptions C11_break_innermost_nested.
+Print Assumptions C11_continue_skips_text.
+Print Assumptions C11_continue_skips_text_for.
+Print Assumptions C11_break_innermost_exec.
+Print Assumptions C11_break_innermost_for_exec.
+Print Assumptions C11_continue_skips_exec.
+Print Assumptions C11_continue_skips_for_exec.
+Print Assumptions C11_for_increment_break_refuted.
+Print Assumptions C11_for_increment_break_escapes.
+Print Assumptions C11_limit_never_ends.
+Print Assumptions C11_limit_never_ends_for.
+Print Assumptions C11_limit_constant.
+Print Assumptions C11_limit_exec.
+Print Assumptions C11_limit_for_exec.
+Print Assumptions C11_defaults_fill.
+Print Assumptions C11_defaults_given.
+Print Assumptions C11_defaults_missing.
+Print Assumptions C11_defaults_valueless.
+Print Assumptions C11_extra_args_ignored.
+Print Assumptions C11_defaults_exec.
+Print Assumptions C11_defaults_entry_exec.
+Print Assumptions C11_extra_args_exec.
+Print Assumptions C11_return_anywhere.
+Print Assumptions C11_return_value.
+Print Assumptions C11_return_from_for.
+Print Assumptions C11_return_exec.
+Print Assumptions C11_scope_reads.
+Print Assumptions C11_scope_call_exec.
+Print Assumptions C11_scope_value_exec.
+Print Assumptions C11_scope_block_exec.
